@@ -165,6 +165,11 @@ class Gen:
                 out.append(f'<div style="display:none">{self.inline_text("drop", 2)}</div>')
             else:
                 out.append(self.paragraph(kind))
+            if rng.random() < 0.06 and self.allow('fixed-block') and not self.adversarial:
+                # an unbreakable block: empty, definite height, top padding / border (no text: nothing to conserve)
+                self.features.add('fixed-block')
+                out.append(f'<div style="height:{rng.choice([5, 10, 30])}px;padding-top:{rng.choice([0, 4, 8])}px;'
+                           f'border-top:{rng.choice([0, 2])}px solid;margin:{rng.choice([0, 3])}px 0"></div>')
         return ''.join(out)
 
     def table(self, depth):
